@@ -35,6 +35,14 @@ func vpCatalogue(k int) {
 		vpOK(zzvp.Run("commit", "-m", "c1"))
 		vpOK(zzvp.Run("branch", "dev"))
 		vpOK(zzvp.Run("branch", "-r", "trunk"))
+	case 7: // two branches, HEAD on the one that sorts first
+		vpInitRepo()
+		zzvp.WriteFile(w+"/a", []byte("1"))
+		vpOK(zzvp.Run("add", "a"))
+		vpOK(zzvp.Run("commit", "-m", "c1"))
+		vpOK(zzvp.Run("branch", "dev"))
+		vpOK(zzvp.Run("branch", "-r", "trunk"))
+		vpOK(zzvp.Run("switch", "dev"))
 	case 6: // identity never configured
 		vpOK(zzvp.Run("init"))
 		zzvp.WriteFile(w+"/a", []byte("1"))
@@ -55,12 +63,25 @@ func vpFreeArg(name string, maxLen int) string {
 
 // VP_C18_AnyCmd: every sub-command, flag combination and argument list ends with status 0 or 1; refusals change nothing.
 func VP_C18_AnyCmd() {
-	vpCatalogue(zzvp.Choose(zzvp.Param("states", 7)))
+	// the states explored are the set bits of "statemask" (default: all eight)
+	mask := zzvp.Param("statemask", 255)
+	var states []int
+	for i := 0; i < 8; i++ {
+		if mask&(1<<i) != 0 {
+			states = append(states, i)
+		}
+	}
+	vpCatalogue(states[zzvp.Choose(len(states))])
 	w := zzvp.Root()
 	s0 := zzvp.Snapshot(w)
-	nargs := zzvp.Choose(3)
+	nargs := zzvp.Choose(zzvp.Param("maxargs", 2) + 1)
 	var args []string
 	for i := 0; i < nargs; i++ {
+		if i == 1 {
+			// a second argument: a repetition of the first, an existing path or an unknown one (surplus / repeated arguments)
+			args = append(args, []string{args[0], "a", "nosuch"}[zzvp.Choose(3)])
+			continue
+		}
 		switch zzvp.Choose(5) {
 		case 0:
 			args = append(args, vpFreeArg("arg"+string(rune('0'+i)), zzvp.Param("arglen", 2)))
@@ -76,7 +97,11 @@ func VP_C18_AnyCmd() {
 	}
 	cmds := []string{"init", "add", "rm", "commit", "status", "log", "branch", "switch", "reset", "restore", "cat-file", "hash-object",
 		"ls-files", "rev-parse", "update-ref", "write-tree", "config", "reflog", "version-flag"}
-	c := cmds[zzvp.Choose(len(cmds))]
+	ci := zzvp.Choose(len(cmds))
+	if only := zzvp.Param("onlycmd", -1); only >= 0 {
+		ci = only
+	}
+	c := cmds[ci]
 	argv := []string{c}
 	readOnly := false
 	switch c {
